@@ -75,8 +75,8 @@ def genuine_match(lib_view, et_view):
             return False
     if ltext is not None and ltext != etext:
         return False
-    if len(lkids) != len(ekids) and lkids:
-        return False
+    if len(lkids) != len(ekids) and (lkids or G.GRAMMAR.get(ltag, {}).get("child")):
+        return False        # (kinds without children ignore whatever is nested in them; a vector has exactly the children of its element)
     for lk, ek in zip(lkids, ekids):
         if not genuine_match(lk, ek):
             return False
